@@ -360,6 +360,32 @@ theorem placed_box_no_overlap (shapes : List Shape) (b : ABox) (cb : CB) (outer 
   rw [h2]
   exact this
 
+/-- **A formatting-context root, table wrapper or block-level replaced box with a border box of positive height
+never overlaps a float** — whether or not it fits beside the floats: `avoid_collisions(outer=False)` either finds a
+place where it fits between the bounds, or ends at a position where no float collides with it vertically (then it
+may stick out of its containing block, but lies over no float). -/
+theorem avoided_box_no_overlap (shapes : List Shape) (b : ABox) (cb : CB) (p : Placement)
+    (h : avoidCollisions shapes b cb false = .ok p)
+    (hh : 0 < b.bh) (hp : Proper shapes) (hk : b.kind ≠ .line) :
+    ∀ s ∈ shapes, ¬ Overlaps (p.x + b.ml) (p.y + b.mt) b.bw b.bh s := by
+  obtain ⟨res, hres, _, h2, h3⟩ := avoid_collisions_result shapes b cb false p h
+  simp only [Bool.false_eq_true, if_false] at hres h2 h3
+  rcases result_fits_or_is_free _ shapes _ _ _ _ _ res hres hh hp with hfit | hfree
+  · have hx : res.l ≤ p.x + b.ml ∧ p.x + b.ml + b.bw ≤ res.r := by
+      rw [h3]
+      by_cases c1 : b.float = .none ∧ cb.rtl = true
+      · simp only [c1, and_self, if_true, hk, if_false]; grind
+      · simp only [c1, if_false]; grind
+    have := (no_overlap _ shapes _ _ _ _ _ res hres hh hp (p.x + b.ml) hx.1 hx.2).1
+    rw [h2]; exact this
+  · intro s hs hov
+    obtain ⟨_, _, ho3, ho4⟩ := hov
+    rw [h2] at ho3 ho4
+    have hcol : collides s res.y b.bh = true := (collide_iff s res.y _ hh (hp s hs).1).mpr ⟨ho4, ho3⟩
+    have : s ∈ colliding shapes res.y b.bh := mem_colliding.mpr ⟨hs, hcol⟩
+    rw [hfree] at this
+    simp at this
+
 example : (avoidCollisions [⟨0, 0, 30, 40, .left⟩, ⟨80, 0, 20, 20, .right⟩]
     ⟨0, 10, 0, 0, 0, 0, 50, 10, .none, .none, .line⟩ ⟨0, 100, true⟩ false).toOption = some ⟨80, 10, 50⟩ := by
   decide +kernel
